@@ -192,6 +192,10 @@ func (sp SinePacer) Pace(elapsedTime time.Duration, elapsedHits uint64) (time.Du
 		// If the SinePacer configuration is invalid, stop the attack.
 		return 0, true
 	}
+	if elapsedHits == math.MaxUint64 {
+		// elapsedHits+1 would overflow, so stop the attack.
+		return 0, true
+	}
 	expectedHits := sp.hits(elapsedTime)
 	if elapsedHits < uint64(expectedHits) {
 		// Running behind, send next hit immediately.
@@ -311,9 +315,13 @@ func (p LinearPacer) Pace(elapsed time.Duration, hits uint64) (time.Duration, bo
 	}
 
 	delta := float64(hits+1) - expectedHits
-	wait := time.Duration(interval * delta)
+	wait := interval * delta
+	if hits == math.MaxUint64 || wait >= math.MaxInt64 {
+		// hits+1 or the wait would overflow, so stop the attack.
+		return 0, true
+	}
 
-	return wait, false
+	return time.Duration(wait), false
 }
 
 // Rate returns a LinearPacer's instantaneous hit rate (i.e. requests per second)
